@@ -26,7 +26,8 @@ from MIP.geom.forcad import transform_frame
 from MIP.geom.transforms import get_transforms
 
 from ..Surface.SurfaceMCNP import SurfaceMCNP
-from .TransformationQuad import transformation_quad
+from .TransformationQuad import (transformation_quad,
+                                 special_quadric_to_quadric)
 from .TransformationError import TransformationError
 
 from ..Surface.ESurfaceTypeMCNP import ESurfaceTypeMCNP as MS
@@ -395,7 +396,15 @@ def transformation(trpl, surface):
     '''
     if not trpl:
         return surface
-    if surface.type_surface in (MS.SQ, MS.GQ):
+    if surface.type_surface == MS.SQ:
+        # the SQ parameters are not quadric coefficients: expand them into
+        # the general form before applying the transformation
+        gq_params = special_quadric_to_quadric(surface.compl_param)
+        return SurfaceMCNP(surface.boundary_cond, MS.GQ,
+                           tuple(surface.param_surface),
+                           transformation_quad(gq_params, trpl),
+                           surface.idorigin)
+    if surface.type_surface == MS.GQ:
         frame = tuple(surface.param_surface)
         params = transformation_quad(surface.compl_param, trpl)
     else:
